@@ -269,8 +269,34 @@ def check_optimisation(c, spec, folder, lines, pending):
             h[e["through"]] = Timeseries(np.array(e["times"]), np.array([e["sign"] * v for v in e["base_values"]]))
         return h
 
-    P = opt_class(times, {"objective": objective, "history": history})
-    case = {"stream": "mo-opt", "model": spec["text"], "times": times, "objective_on": target, "history": hist}
+    # bounds and seeds set through a random name of the quantity (in user code, on top of the model's)
+    bset, sset = {}, {}
+    for base, members in spec["classes"].items():
+        if rng.random() < 0.4:
+            n, sg = rng.choice(members)
+            bset[base] = {"through": n, "sign": sg, "base_pair": (float(rng.randint(-3000, -2100)), float(rng.randint(2100, 4000)))}
+        if spec["kinds"][base] != "control" and rng.random() < 0.4:
+            n, sg = rng.choice(members)
+            sset[base] = {"through": n, "sign": sg, "base_values": [rng.randint(-8, 8) / 2 for _ in times]}
+
+    def bounds(self):
+        b = super(P, self).bounds()
+        for base, e in bset.items():
+            lo, hi = e["base_pair"]
+            b[e["through"]] = (lo, hi) if e["sign"] > 0 else (-hi, -lo)
+        return b
+
+    def seed(self, ensemble_member):
+        from rtctools.optimization.timeseries import Timeseries
+
+        sd = super(P, self).seed(ensemble_member)
+        for base, e in sset.items():
+            sd[e["through"]] = Timeseries(np.array(times), np.array([e["sign"] * v for v in e["base_values"]]))
+        return sd
+
+    P = opt_class(times, {"objective": objective, "history": history, "bounds": bounds, "seed": seed})
+    case = {"stream": "mo-opt", "model": spec["text"], "times": times, "objective_on": target, "history": hist,
+            "bounds_set": bset, "seed_set": sset}
     with quiet_fd():
         p = P(model_folder=folder, model_name=spec["name"], input_folder=folder, output_folder=folder)
         r_opt = _call(p.optimize)
@@ -294,6 +320,25 @@ def check_optimisation(c, spec, folder, lines, pending):
     obs["history"] = p.history(0)
     obs["seed"] = p.seed(0)
     obs["results"] = p.extract_results()
+    # ---- oracle: what was stored through an alias is what the base name sees (get after set)
+    for base, e in bset.items():
+        r = _call(lambda: obs["bounds"][base])
+        c.count(("mo-opt", "bounds-set-through-alias", e["sign"]))
+        if r[0] != "ok" or tuple(map(float, r[1])) != e["base_pair"]:
+            c.fail("bounds stored through %r (sign %d) are not seen signed through %r" % (e["through"], e["sign"], base),
+                   case, {"expected": e["base_pair"], "got": r})
+    for base, e in sset.items():
+        r = _call(lambda: list(map(float, obs["seed"][base].values)))
+        c.count(("mo-opt", "seed-set-through-alias", e["sign"]))
+        if r[0] != "ok" or r[1] != [float(v) for v in e["base_values"]]:
+            c.fail("seed stored through %r (sign %d) is not seen signed through %r" % (e["through"], e["sign"], base),
+                   case, {"expected": e["base_values"], "got": r})
+    for base, e in hist.items():
+        r = _call(lambda: list(map(float, obs["history"][base].values)))
+        c.count(("mo-opt", "history-set-through-alias", e["sign"]))
+        if r[0] != "ok" or r[1] != [float(v) for v in e["base_values"]]:
+            c.fail("history stored through %r (sign %d) is not seen signed through %r" % (e["through"], e["sign"], base),
+                   case, {"expected": e["base_values"], "got": r})
     # ---- oracle: every member of a class sees the base's value, signed
     import casadi as ca
 
